@@ -52,7 +52,7 @@ def _handlers(ck: Check, repo: Repo) -> None:
             elif isinstance(v, ast.ListComp) and isinstance(v.elt, ast.Call):
                 built["list"] = v
                 built.setdefault("list-of:" + call_name(v.elt), v)
-    ck.floor("C16.1", len(built), 4, "distribution kinds constructed by get_distribution")
+    ck.floor("C16.1", len(built), 4, "distribution kinds constructed by get_distribution", fn=gd)
     for k, node in built.items():
         if k.startswith("list-of:"):
             ck.ob("C16.1", gd, node, k == "list-of:Categorical", "a list distribution consists of Categorical components (what the list handler assumes)")
@@ -121,7 +121,7 @@ def _log_prob(ck: Check, repo: Repo) -> None:
     cfg = CFG(fn.node)
     tb = TermBuilder(repo, fn, cfg=cfg, depth=0)
     calls = [c for c in calls_in(fn.node) if call_name(c) == "self._handler.log_prob"]
-    ck.floor("C16.3", len(calls), 1, "handler.log_prob call in TorchDistribution.log_prob")
+    ck.floor("C16.3", len(calls), 1, "handler.log_prob call in TorchDistribution.log_prob", fn=fn)
     pa = "param:TorchDistribution.log_prob.action"
     for c in calls:
         n = cfg.node_of(c)
